@@ -246,9 +246,10 @@ func drawC02(t *rapid.T) C02Case {
 		MaxActions: rapid.SampledFrom([]int{6, 12, 25, 40}).Draw(t, "maxActions"),
 		Accruals:   rapid.IntRange(0, 2).Draw(t, "accruals") == 0,
 		Assertions: rapid.Bool().Draw(t, "assertions"), Closes: true,
-		Prices:  rapid.SampledFrom([]int{0, 0, 1}).Draw(t, "prices"),
-		MaxDec:  rapid.SampledFrom([]int{2, 4, 8}).Draw(t, "maxDec"),
-		Unicode: rapid.IntRange(0, 5).Draw(t, "unicode") == 0,
+		Prices:    rapid.SampledFrom([]int{0, 0, 1}).Draw(t, "prices"),
+		MaxDec:    rapid.SampledFrom([]int{2, 4, 8}).Draw(t, "maxDec"),
+		Unicode:   rapid.IntRange(0, 5).Draw(t, "unicode") == 0,
+		WideDates: true,
 	}
 	j := gen.GenJournal(t, cfg)
 	if rapid.IntRange(0, 3).Draw(t, "shuffle") == 0 {
